@@ -572,6 +572,27 @@ carquet_column_reader_t* carquet_reader_get_column(
     int32_t schema_idx = reader->schema->leaf_indices[column_index];
     const parquet_schema_element_t* schema_elem = &reader->schema->elements[schema_idx];
 
+    /* The chunk's own type decides how values are decoded and how wide they
+     * are; callers size their buffers from the schema. The two must agree. */
+    if (!schema_elem->has_type || schema_elem->type != col_reader->col_meta->type) {
+        free(col_reader);
+        CARQUET_SET_ERROR(error, CARQUET_ERROR_INVALID_METADATA,
+            "Column chunk type does not match the schema");
+        return NULL;
+    }
+    if (schema_elem->type == CARQUET_PHYSICAL_FIXED_LEN_BYTE_ARRAY && schema_elem->type_length <= 0) {
+        free(col_reader);
+        CARQUET_SET_ERROR(error, CARQUET_ERROR_INVALID_METADATA,
+            "Fixed-length column without a positive type length");
+        return NULL;
+    }
+    if (col_reader->col_meta->num_values < 0) {
+        free(col_reader);
+        CARQUET_SET_ERROR(error, CARQUET_ERROR_INVALID_METADATA,
+            "Negative value count in column chunk");
+        return NULL;
+    }
+
     col_reader->max_def_level = reader->schema->max_def_levels[column_index];
     col_reader->max_rep_level = reader->schema->max_rep_levels[column_index];
     col_reader->type = col_reader->col_meta->type;
